@@ -20,6 +20,21 @@ pub fn count_fd_constraints(p: &Program) -> usize {
     p.body.iter().map(visit).sum()
 }
 
+/// C09: a finite-domain variable that is not part of the query term is labeled under `onceo`
+/// in the iteration order of the domain store; a tree disequality (`!=`) mentioning such a
+/// variable makes the chosen witness visible in the answer's constraints, which then differ
+/// between hash orders. Class: a program that gives domains to variables and also posts a tree
+/// disequality.
+pub fn fd_neq_class(p: &Program) -> Option<String> {
+    let has_dom = p.any(|g| matches!(g, G::Dom(..) | G::DomRange(..)));
+    let has_neq = p.any(|g| matches!(g, G::Neq(..)));
+    if has_dom && has_neq {
+        Some("fd-hidden-label-visible-through-disequality".into())
+    } else {
+        None
+    }
+}
+
 /// C09: the *order* in which a CLP(FD) program's answers come out depends on the order in which
 /// pending constraints are re-run (one pass per binding, no fixpoint), because differently
 /// pruned domains change the shape of the interleaved labeling search. Class: two or more
